@@ -306,7 +306,7 @@ func genLoops() (out []tableCase) {
 	return
 }
 
-func c13Run(c *mc.Ctx, tc tableCase, pointer int) {
+func c13Run(c *mc.Ctx, tc tableCase, pointer int, chunks ...int) {
 	u := PSIUnit(tc.PID, pointer, tc.Secs, append([]ExpData{}, tc.Exp...))
 	var ps []*ref.Pkt
 	exp := map[uint16][]ExpData{tc.PID: u.Exp}
@@ -318,7 +318,7 @@ func c13Run(c *mc.Ctx, tc tableCase, pointer int) {
 		exp[0] = up.Exp
 	}
 	cc := uint8(9)
-	ps = append(ps, Packetize(u, nil, &cc, true)...)
+	ps = append(ps, Packetize(u, chunks, &cc, true)...)
 	b := EncodePkts(ps)
 	out := DemuxBytes(b)
 	kind := tc.What[:3]
@@ -404,6 +404,66 @@ func c13Write(c *mc.Ctx, tc tableCase) {
 	}
 }
 
+// c13Ranges (thorough tier): every loop count from 0 to the number that fills the section.
+func c13Ranges(name string) (out []tableCase) {
+	switch name {
+	case "PAT":
+		for n := 0; n <= 253; n++ {
+			d := &astits.PATData{TransportStreamID: uint16(n)}
+			for i := 0; i < n; i++ {
+				d.Programs = append(d.Programs, &astits.PATProgram{ProgramNumber: uint16(i + 1), ProgramMapID: uint16(0x20 + i)})
+			}
+			h := ref.SecHdr{CNI: true, Version: uint8(n % 32)}
+			out = append(out, tableCase{What: fmt.Sprintf("PAT range programs=%d", n), PID: 0, Secs: [][]byte{SecPAT(d, h)}, Exp: []ExpData{{Kind: "PAT", Table: d}}, Hdrs: []ref.SecHdr{withIDs(h, 0, d.TransportStreamID, true, false)}})
+		}
+	case "PMT":
+		for n := 0; n <= 200; n++ {
+			d := &astits.PMTData{ProgramNumber: uint16(n + 1), PCRPID: 0x1ffe}
+			for i := 0; i < n; i++ {
+				d.ElementaryStreams = append(d.ElementaryStreams, &astits.PMTElementaryStream{ElementaryPID: uint16(0x20 + i), StreamType: astits.StreamType(i)})
+			}
+			h := ref.SecHdr{CNI: true, Version: uint8(n % 32)}
+			if s := SecPMT(d, h); len(s) <= 1024 {
+				out = append(out, tableCase{What: fmt.Sprintf("PMT range streams=%d", n), PID: 0x1000, Secs: [][]byte{s}, Exp: []ExpData{{Kind: "PMT", Table: d}}, Hdrs: []ref.SecHdr{withIDs(h, 2, d.ProgramNumber, true, false)}})
+			}
+		}
+	case "SDT":
+		for n := 0; n <= 200; n++ {
+			d := &astits.SDTData{TransportStreamID: uint16(n), OriginalNetworkID: 1}
+			for i := 0; i < n; i++ {
+				d.Services = append(d.Services, &astits.SDTDataService{ServiceID: uint16(i), RunningStatus: uint8(i % 8)})
+			}
+			h := ref.SecHdr{CNI: true}
+			if s := SecSDT(d, h); len(s) <= 1024 {
+				out = append(out, tableCase{What: fmt.Sprintf("SDT range services=%d", n), PID: 0x11, Secs: [][]byte{s}, Exp: []ExpData{{Kind: "SDT", Table: d}}, Hdrs: []ref.SecHdr{withIDs(h, 0x42, d.TransportStreamID, true, true)}})
+			}
+		}
+	case "NIT":
+		for n := 0; n <= 170; n++ {
+			d := &astits.NITData{NetworkID: uint16(n)}
+			for i := 0; i < n; i++ {
+				d.TransportStreams = append(d.TransportStreams, &astits.NITDataTransportStream{TransportStreamID: uint16(i), OriginalNetworkID: uint16(i * 3)})
+			}
+			h := ref.SecHdr{CNI: true}
+			if s := SecNIT(d, h); len(s) <= 1024 {
+				out = append(out, tableCase{What: fmt.Sprintf("NIT range transport streams=%d", n), PID: 0x10, Secs: [][]byte{s}, Exp: []ExpData{{Kind: "NIT", Table: d}}, Hdrs: []ref.SecHdr{withIDs(h, 0x40, d.NetworkID, true, true)}})
+			}
+		}
+	case "EIT":
+		for n := 0; n <= 340; n++ {
+			d := &astits.EITData{ServiceID: uint16(n), TransportStreamID: 2, OriginalNetworkID: 3, LastTableID: 0x4e}
+			for i := 0; i < n; i++ {
+				d.Events = append(d.Events, &astits.EITDataEvent{EventID: uint16(i), StartTime: dvbTimes[i%len(dvbTimes)], Duration: time.Duration(i%100) * time.Minute, RunningStatus: uint8(i % 8)})
+			}
+			h := ref.SecHdr{CNI: true}
+			if s := SecEIT(d, h); len(s) <= 4096 {
+				out = append(out, tableCase{What: fmt.Sprintf("EIT range events=%d", n), PID: 0x12, Secs: [][]byte{s}, Exp: []ExpData{{Kind: "EIT", Table: d}}, Hdrs: []ref.SecHdr{withIDs(h, 0x4e, d.ServiceID, true, true)}})
+			}
+		}
+	}
+	return
+}
+
 func checkC13(c *mc.Ctx) {
 	c.Ev.Level = "exploration"
 	c.Ev.Rule = "bounded-exhaustive table model space: per table type loop counts {0,1,2,3,fill to the section limit}, descriptor loops of 0..2 rotating kinds, every id/number field over {0, max, alternating, every single bit}, all table_id variants, all 32 versions with varying section numbers / current_next, flags; pointer fields; 1..3 sections per unit; each model is reference-encoded, demuxed by the real Demuxer and compared field for field; generic header fields and CRC through the parsePSIData hook; PAT/PMT written by the library compared byte for byte; distinct_nontrivial = distinct table models"
@@ -411,6 +471,9 @@ func checkC13(c *mc.Ctx) {
 	gens := map[string]func() []tableCase{"PAT": genPAT, "PMT": genPMT, "SDT": genSDT, "NIT": genNIT, "EIT": genEIT, "TOT": genTOT, "descriptor-loops": genLoops}
 	for _, name := range []string{"PAT", "PMT", "SDT", "NIT", "EIT", "TOT", "descriptor-loops"} {
 		cases := gens[name]()
+		if c.Thorough() {
+			cases = append(cases, c13Ranges(name)...)
+		}
 		n := int64(len(cases))
 		done := mc.ParFor(n, c.OverBudget, func(i int64) {
 			tc := cases[i]
@@ -418,6 +481,15 @@ func checkC13(c *mc.Ctx) {
 			if c.Thorough() {
 				for _, ptr := range []int{1, 7, 50, 150} {
 					c13Run(c, tc, ptr)
+				}
+				// packetisations: the first packet ends inside the section header / right after it / mid-body,
+				// the second packet carries a single byte
+				if len(tc.Secs) == 1 {
+					for _, first := range []int{2, 3, 4, 9, 100} {
+						c13Run(c, tc, 0, first)
+						c13Run(c, tc, 0, first, 1)
+						c13Run(c, tc, 5, first+5, 1)
+					}
 				}
 			}
 			if tc.PID == 0 || tc.PID == 0x1000 {
